@@ -34,7 +34,8 @@ pub enum Action {
     Complete { reveal: u16, #[serde(default)] alt_order: bool },
     /// Adversary: certificates that are NOT backed by a quorum (kind 0: all signer bits set, only Byzantine signatures; 1: only Byzantine bits;
     /// 2: genuine votes plus unsigned extra bits; 3: a timeout certificate made of Byzantine votes with all bits claimed) for a block some correct node voted for,
-    /// wrapped in a new-view message and, if the Byzantine validator leads the view, in a proposal.
+    /// wrapped in a new-view message and, if the Byzantine validator leads the view, in a proposal. Kinds 4 / 5: a timeout certificate for the
+    /// newest view padded with genuine but stale timeout votes of correct validators (their oldest / their newest older ones).
     Forge { kind: u8, to: u16 },
     /// Adversary tactic "hide the certificate": the current proposal reaches exactly `voters` correct nodes, their votes are completed into a certificate that is
     /// revealed only to the nodes selected by `reveal`; everybody else times out, the timeout certificate is assembled (Byzantine validators report `lie`) and spread.
@@ -200,7 +201,7 @@ pub fn gen_case(ch: &mut Choices, p: &Profile) -> SimCase {
                 }
                 2 => {
                     actions.push(Action::Equivocate { to_a: ch.raw(), to_b: u16::MAX });
-                    actions.push(Action::Forge { kind: ch.below(4) as u8, to: u16::MAX });
+                    actions.push(Action::Forge { kind: ch.below(6) as u8, to: u16::MAX });
                     actions.push(all(2));
                 }
                 _ => {
@@ -237,7 +238,7 @@ pub fn gen_case(ch: &mut Choices, p: &Profile) -> SimCase {
             25 if p.crashes => Action::Defer { node: ch.raw(), on: ch.bool() },
             26 if p.crashes => Action::Persist { node: ch.raw(), k: ch.pick(&[1u16, 5, 100]) },
             27..=29 if p.byzantine => Action::Complete { reveal: if ch.bool() { 0 } else { mask(ch) }, alt_order: ch.bool() },
-            30 if p.byzantine => Action::Forge { kind: ch.below(4) as u8, to: mask(ch) },
+            30 if p.byzantine => Action::Forge { kind: ch.below(6) as u8, to: mask(ch) },
             31 | 32 if p.byzantine => Action::CompleteTimeouts { lie: ch.below(15) as u8, reveal: mask(ch) },
             33 | 34 if p.byzantine => Action::Equivocate { to_a: mask(ch), to_b: mask(ch) },
             35 if p.byzantine => Action::HideQc { voters: ch.pick(&[3u8, 4, 4, 5, 2]), reveal: 1 << ch.below(6), lie: ch.below(15) as u8 },
